@@ -2,25 +2,28 @@ import AiocoapModel.Basic.Bytes
 import AiocoapModel.Blockwise.BlockOpt
 import AiocoapModel.Blockwise.TimeoutDict
 /-!
-Model of the block-wise server machinery, as of the three `fix:` commits of C06 on top of the
+Model of the block-wise server machinery, as of the six `fix:` commits of C06 on top of the
 pinned snapshot (ValueError → 4.08; later block never answered with the complete body; stale
-rendering dropped when a newer complete response is sent):
+rendering dropped when a newer complete response is sent; a final block longer than its block size
+→ 4.00; a completed assembly leaves the spool; a kept rendering is dropped when the handler raises
+on a newer request for the beginning):
 
 * `_extract_block_key`                     aiocoap/blockwise.py:18-35
   (`remote.blockwise_key` of the UDP remote: transports/udp6.py:263-265)
 * `Message.get_cache_key`                  aiocoap/message.py:382-415
 * `Message._extract_block`                 aiocoap/message.py:422-443
-* `Message._append_request_block`          aiocoap/message.py:445-472
-* `Block1Spool.feed_and_take`              aiocoap/blockwise.py:60-92
-* `Block2Cache.extract_or_insert`          aiocoap/blockwise.py:95-156
+* `Message._append_request_block`          aiocoap/message.py:445-475
+* `Block1Spool.feed_and_take`              aiocoap/blockwise.py:60-96
+* `Block2Cache.extract_or_insert`          aiocoap/blockwise.py:99-169
 * `Resource._render_to_pipe`               aiocoap/interfaces.py:416-444
 * rendering of the exceptions that leave `_render_to_pipe`
   (`ContinueException.to_message`, `ConstructionRenderableError.to_message`,
    `pipe.error_to_message`)               aiocoap/blockwise.py:38-57, error.py:82-99, pipe.py:232-285
 
 One request is processed atomically (the handler does not yield to another request of
-the same resource while it renders); a handler is a total function from the assembled
-request to a response message.  Not modelled: token / message id / message type of the stored
+the same resource while it renders); a handler maps the assembled request to a response message
+or raises (`Outcome.error`: the code the exception is rendered with — `RenderableError.to_message().code`,
+5.00 for any other exception).  Not modelled: token / message id / message type of the stored
 request (`_append_request_block` copies them from the latest block), the diagnostic payload of
 error responses, `ObservableResource._render_to_pipe`.
 -/
@@ -88,9 +91,12 @@ inductive AppendErr
   | badRequest    -- `raise error.BadRequest("Payload size does not match Block1")`
 deriving Repr, DecidableEq
 
-/-- the size test of `_append_request_block`, only made when the more flag is set -/
+/-- the size test of `_append_request_block` (message.py:450-461): a block with the more flag
+has exactly the block size (BERT: a multiple of 1024); a final block of a size exponent below 7
+is at most one block long (a final BERT block is not constrained) -/
 def sizeOk (b : Blk) (len : Nat) : Bool :=
-  !b.more || (len == b.size || (b.szx == 7 && len % b.size == 0))
+  if b.more then (len == b.size || (b.szx == 7 && len % b.size == 0))
+  else (b.szx == 7 || decide (len ≤ b.size))
 
 /-- `self._append_request_block(next_block)` with `b = next_block.opt.block1`:
 request check, then the size check (→ 4.00), then `block1.start == len(self.payload)`
@@ -121,7 +127,13 @@ def feedOfErr : AppendErr → Feed
   | .valueError => .incomplete
   | .badRequest => .badRequest
 
-/-- `Block1Spool.feed_and_take(req)` at time `now` (timers already run) -/
+/-- `try: del d[block_key]` / `except KeyError: pass`, and the plain `del d[block_key]` right
+after a successful lookup of that key -/
+def delIf {ν : Type} (c : TD Key ν) (k : Key) : TD Key ν :=
+  match c.del k with | some c' => c' | none => c
+
+/-- `Block1Spool.feed_and_take(req)` at time `now` (timers already run).  On a final block the
+assembly is looked up (an access), deleted from the spool and returned (blockwise.py:91-96). -/
 def feedAndTake (T now : Nat) (sp : TD Key Msg) (req : Msg) : TD Key Msg × Feed :=
   match req.block1 with
   | none => (sp, .pass req)
@@ -144,7 +156,7 @@ def feedAndTake (T now : Nat) (sp : TD Key Msg) (req : Msg) : TD Key Msg × Feed
       if b.more then (sp2, .cont b)
       else
         match sp2.get T now k with
-        | some (m, sp3) => (sp3, .pass m)
+        | some (m, sp3) => (delIf sp3 k, .pass m)
         | none => (sp2, .keyError)
 
 -- Block2 ---------------------------------------------------------------------------------
@@ -164,10 +176,23 @@ def extractBlock (a : Resp) (num szx maxPayload : Nat) : Option Resp :=
     if isRequestCode a.code then some { a with payload := payload, block1 := some blk }
     else some { a with payload := payload, block2 := some blk }
 
+/-- what the handler does with a request: a response message, or an exception given by the code
+of the message it is rendered as (`pipe.error_to_message`) -/
+inductive Outcome
+  | ok (r : Resp)
+  | error (code : Nat)
+deriving Repr, DecidableEq
+
+/-- the response code an outcome is answered with -/
+def Outcome.code : Outcome → Nat
+  | .ok r => r.code
+  | .error c => c
+
 inductive Extract
   | ok (r : Resp)
   | incomplete      -- `IncompleteException`
   | badRequest      -- `error.BadRequest` out of `_extract_block`
+  | raised (code : Nat)   -- the exception of `response_builder()`, re-raised
 deriving Repr, DecidableEq
 
 /-- the chunking condition of `extract_or_insert` (blockwise.py:130-139, fixed) -/
@@ -188,10 +213,6 @@ def governing (req : Msg) : Blk :=
   | some b => b
   | none => { num := 0, more := false, szx := req.remote.maxSzx }
 
-/-- `try: del self._completes[block_key]` / `except KeyError: pass` -/
-def delIf (c : TD Key Resp) (k : Key) : TD Key Resp :=
-  match c.del k with | some c' => c' | none => c
-
 /-- `assembled._extract_block(block2.block_number, block2.size_exponent, maximum_payload_size)` -/
 def sliceOf (a : Resp) (req : Msg) : Extract :=
   match extractBlock a (governing req).num (governing req).szx req.remote.maxPayload with
@@ -199,15 +220,24 @@ def sliceOf (a : Resp) (req : Msg) : Extract :=
   | none => .badRequest
 
 /-- `Block2Cache.extract_or_insert(req, response_builder)` at time `now`.
-Third component: whether `response_builder` (the handler) was awaited. -/
-def extractOrInsert (T now : Nat) (c : TD Key Resp) (req : Msg) (render : Msg → Resp) :
+Third component: whether `response_builder` (the handler) was awaited.  When the handler raises,
+the rendering kept under the block key is dropped and the exception re-raised
+(blockwise.py:127-136). -/
+def extractOrInsert (T now : Nat) (c : TD Key Resp) (req : Msg) (render : Msg → Outcome) :
     TD Key Resp × Extract × Bool :=
   let k := blockKey req
-  let looked : Option (Resp × TD Key Resp) :=
-    if isFresh req then some (render req, c) else c.get T now k
+  let looked : Except (TD Key Resp × Extract × Bool) (Resp × TD Key Resp) :=
+    if isFresh req then
+      match render req with
+      | .ok a => .ok (a, c)
+      | .error code => .error (delIf c k, .raised code, true)
+    else
+      match c.get T now k with
+      | some r => .ok r
+      | none => .error (c, .incomplete, false)
   match looked with
-  | none => (c, .incomplete, false)
-  | some (a, c1) =>
+  | .error r => r
+  | .ok (a, c1) =>
     if needsChunking req a.payload.length then
       (c1.set T now k a, sliceOf a req, isFresh req)
     else
@@ -229,7 +259,7 @@ structure In where
   now : Nat
   assemble : Bool
   req : Msg
-  render : Msg → Resp
+  render : Msg → Outcome
 
 /-- what is observable of one request: the response put on the pipe, and the request the
 handler was invoked with (if it was) -/
@@ -244,11 +274,18 @@ def errResp (code : Nat) (block1 : Option Blk) : Resp :=
   { code := code, opts := [], block1 := block1, block2 := none, payload := [] }
 
 /-- what `_render_to_pipe` puts on the pipe after `extract_or_insert`: the (sliced) response with
-`res.opt.block1 = req.opt.block1`, or the rendered exception -/
+`res.opt.block1 = req.opt.block1`, or the rendered exception (which leaves `_render_to_pipe`
+before the Block1 option is set) -/
 def respondExtract (m : Msg) : Extract → Resp
   | .ok r => { r with block1 := m.block1 }
   | .incomplete => errResp REQUEST_ENTITY_INCOMPLETE none
   | .badRequest => errResp BAD_REQUEST none
+  | .raised code => errResp code none
+
+/-- the response to a request the handler was invoked with directly (no block-wise assembly) -/
+def respondOutcome : Outcome → Resp
+  | .ok r => r
+  | .error code => errResp code none
 
 /-- `Resource._render_to_pipe` for one request, preceded by the timers of both dictionaries
 that are due at its arrival time -/
@@ -270,7 +307,7 @@ def step (T : Nat) (st : RState) (i : In) : RState × StepOut :=
       ({ spool := f.1, cache := e.1 },
        { resp := respondExtract m e.2.1, seen := if e.2.2 then some m else none })
   else
-    ({ spool := sp, cache := c }, { resp := i.render i.req, seen := some i.req })
+    ({ spool := sp, cache := c }, { resp := respondOutcome (i.render i.req), seen := some i.req })
 
 /-- a whole request sequence against one resource -/
 def run (T : Nat) (st : RState) : List In → List StepOut
